@@ -743,6 +743,9 @@ impl FailSafe {
     ) -> Result<(), Error> {
         let mut verifier = noc.verify_chain_start(crypto, time);
 
+        // The leaf must be a node certificate
+        noc.get_node_id()?;
+
         if let Some(icac) = icac {
             // If ICAC is present handle it. Reject the case where the
             // commissioner re-uses the RCAC as the ICAC:
